@@ -7,7 +7,8 @@
 //! What is demanded of the simulator, on ordinary concurrent programs (`bbtarget`, compiled with
 //! guards like the library under test):
 //!  * correct programs (mutex counter, condvar hand-off, bounded channel, `OnceLock`, `RwLock`,
-//!    `Barrier`, compare-exchange slot pool) give the result their synchronisation guarantees under
+//!    `Barrier`, compare-exchange slot pool, detached jobs feeding a bounded channel that the
+//!    caller thread drains) give the result their synchronisation guarantees under
 //!    EVERY schedule - soundness: the emulation must not invent behaviour (lost wake-up, two owners
 //!    of a lock);
 //!  * incorrect ones are caught under SOME schedule - sensitivity: the load-then-store slot pool
@@ -103,6 +104,47 @@ fn rate(seed: u64, n: u64) {
 
 fn main() {
     let args: Vec<String> = std::env::args().collect();
+    if args.get(1).map(|s| s.as_str()) == Some("det") {
+        // development aid: which program is not a function of its seed?
+        let seed: u64 = args.get(2).and_then(|s| s.parse().ok()).unwrap_or(1);
+        let only: Option<u64> = std::env::var("SIM_DET_ONLY").ok().and_then(|s| s.parse().ok());
+        for i in 0..60u64 {
+            let s = seed ^ (i.wrapping_mul(0x9E37_79B9_7F4A_7C15));
+            if let Some(o) = only {
+                if o != i {
+                    continue;
+                }
+                eprintln!("=== A");
+                let a = under_sim(s, || (bbtarget::mutex_counter(5, 3), bbtarget::slot_claim(10, 2, false)));
+                eprintln!("=== B");
+                let b = under_sim(s, || (bbtarget::mutex_counter(5, 3), bbtarget::slot_claim(10, 2, false)));
+                println!("{} {}", a.decisions.len(), b.decisions.len());
+                continue;
+            }
+            let a = under_sim(s, || bbtarget::mutex_counter(5, 3));
+            let b = under_sim(s, || bbtarget::mutex_counter(5, 3));
+            if a.decisions != b.decisions {
+                println!("mutex_counter seed {} differs: {} / {}", i, a.decisions.len(), b.decisions.len());
+            }
+            let a = under_sim(s, || bbtarget::slot_claim(10, 2, false));
+            let b = under_sim(s, || bbtarget::slot_claim(10, 2, false));
+            if a.decisions != b.decisions {
+                println!("slot_claim seed {} differs: {} / {}", i, a.decisions.len(), b.decisions.len());
+            }
+            let a = under_sim(s, || (bbtarget::mutex_counter(5, 3), bbtarget::slot_claim(10, 2, false)));
+            let b = under_sim(s, || (bbtarget::mutex_counter(5, 3), bbtarget::slot_claim(10, 2, false)));
+            if a.decisions != b.decisions {
+                let k = a.decisions.iter().zip(b.decisions.iter()).position(|(x, y)| x != y);
+                println!("pair seed {} differs: {} / {} first at {:?}; values {:?} {:?}", i, a.decisions.len(), b.decisions.len(), k, a.value, b.value);
+            }
+            let a = under_sim(s, || bbtarget::spawn_and_recv(3, 4));
+            let b = under_sim(s, || bbtarget::spawn_and_recv(3, 4));
+            if a.decisions != b.decisions {
+                println!("spawn_and_recv seed {} differs: {} / {}", i, a.decisions.len(), b.decisions.len());
+            }
+        }
+        return;
+    }
     if args.get(1).map(|s| s.as_str()) == Some("rate") {
         let seed: u64 = args.get(2).and_then(|s| s.parse().ok()).unwrap_or(1);
         let n: u64 = args.get(3).and_then(|s| s.parse().ok()).unwrap_or(200);
@@ -167,6 +209,11 @@ fn main() {
             mismatch("slot_claim(cas)", i, format!("{} double claims with compare_exchange", r.value));
         }
         total.add(&r.stats);
+        let r = under_sim(s ^ 11, || bbtarget::spawn_and_recv(3, 4));
+        if r.value != bbtarget::spawn_and_recv_expected(3, 4) {
+            mismatch("spawn_and_recv", i, format!("{} != {}", r.value, bbtarget::spawn_and_recv_expected(3, 4)));
+        }
+        total.add(&r.stats);
         // -- sleeps are simulated --
         let t0 = std::time::Instant::now();
         let r = under_sim(s ^ 8, || {
@@ -209,7 +256,7 @@ fn main() {
             );
         }
         total.add(&a.stats);
-        evals += 11;
+        evals += 12;
     }
     let mut extra = 0u64;
     while racy_schedules < 160 {
@@ -275,7 +322,7 @@ fn main() {
         }
     }
     println!(
-        "synccheck: programs=11 evaluations={} mismatches={} racy_slot_pool_caught_in={}/{} lock_order_deadlocks={}/{} futex_waits={} futex_wakes={} futex_timeouts={} sleeps_simulated={} bb_preemptions={} guards_passed={} guard_sites={}",
+        "synccheck: programs=13 evaluations={} mismatches={} racy_slot_pool_caught_in={}/{} lock_order_deadlocks={}/{} futex_waits={} futex_wakes={} futex_timeouts={} sleeps_simulated={} bb_preemptions={} guards_passed={} guard_sites={}",
         evals,
         bad,
         racy_clashes,
